@@ -65,7 +65,10 @@ def run(chk):
     from stix2 import markings
     from stix2.exceptions import MarkingNotFoundError, InvalidSelectorError
     chk.registry = REG
-    chk.explanation = ('P (object level, set algebra): add_markings hands new_version the set old | added (hence idempotent and order-independent), remove_markings old - removed '
+    chk.explanation = ('P (granular, section 18.9 of DESIGN): expand_markings and compress_markings keep exactly the (kind, marking, selector) triples of their input; granular add_markings returns a new version whose '
+                       'triples are those of the object united with the added pairs (modular: against the contracts of expand / compress / validate / new_version; utils.validate is called on every returning path); '
+                       'idempotence, order-independence and "reported after adding" are lemmas over that contract.  The contracts of new_version / _fudge_modified (C05) are obligations here too.  '
+                       'P (object level, set algebra): add_markings hands new_version the set old | added (hence idempotent and order-independent), remove_markings old - removed '
                        'and raises MarkingNotFoundError exactly when something to remove is absent, clear removes everything, is_marked(M) <=> M among the object markings; '
                        'selector validity contracts are shared with C08.  B (granular functions: nested loops over nested data, outside PyVC): from 3 base objects (2.0 SDO, '
                        '2.1 SDO, plain dictionary) all states reachable by <= 2 adds x 11 selectors (incl. string-prefix siblings created / created_by_ref, list indices, properties holding "" and false, '
